@@ -273,6 +273,35 @@ func checkC20(c *Check) {
 			}
 		}
 		c.Ob("R2", "a fetch is started exactly when there is no data and none in flight", mf.Pos(), okmf, "")
+		// every submission queued by the loop is followed, within the same iteration, by the fetch trigger: a request
+		// parked for missing chain data (for example after a failed fetch) must cause a new fetch or it is never answered
+		{
+			nq := 0
+			okq := true
+			eachInstrDeep(run, func(i ssa.Instruction) {
+				st, isSt := i.(*ssa.Store)
+				if !isSt || nrm(Sym(st.Addr)) != "&p:m.requests" || !strings.HasPrefix(Sym(st.Val), "builtin.append(") {
+					return
+				}
+				at := liftTo(run, st)
+				if at == nil {
+					return
+				}
+				h := loopHeaderOf(at.Block())
+				if h == nil {
+					return
+				}
+				nq++
+				pred := func(in ssa.Instruction) bool {
+					x, isC := in.(ssa.CallInstruction)
+					return isC && calleeMethod(x) == "maybeFetchData"
+				}
+				if !mustPassFrom(run, at, h.Instrs[0], pred) {
+					okq = false
+				}
+			})
+			c.Ob("R2", "queuing a submission is followed by the fetch trigger before the loop waits again", run.Pos(), okq && nq >= 1, "a submission can be parked without (re)starting the chain fetch it waits for: after a failed fetch it is never answered")
+		}
 		// handleManifest answers when stopping
 		hm := l.Func(pkg, "manager", "handleManifest")
 		okhm := false
